@@ -57,16 +57,27 @@ def generate(rng, tier):
     return cases
 
 
+STATELESS = {'map', 'filter', 'flat_map', 'assert', 'identity', 'starmap', 'clip', 'fill_none', 'do_action', 'ignore', 'errmap'}
+
+
 def run_impl(case):
     tapped, names = muxprop.with_taps(case['ast'])
     obs = muxlib.run_mux(tapped, case['trace'], taps=True)
     obs['tap_names'] = {str(k): v for k, v in names.items()}
+    lts = muxgen.lifetimes_of(case['trace'])
+    if lts:
+        try:
+            obs['entry'] = muxprop.entry_point_mismatch(case['ast'], lts[0][1], stateless=not (muxprop.kinds(case['ast']) - STATELESS))
+        except Exception as e:
+            obs['entry'] = 'entry point run raised %s' % type(e).__name__
     return obs
 
 
 def oracle(case, obs):
     if 'raised' in obs:
         return None
+    if obs.get('entry'):
+        return {'sig': 'protocol:entry-point', 'what': obs['entry']}
     for tid, log in sorted(obs['taps'].items(), key=lambda kv: int(kv[0])):
         v = muxprop.protocol_violation(log)
         if v:
